@@ -24,11 +24,14 @@ RULE = ("statement trees (depth 0..6, fan-out 0..5, first statement level may be
         "vertical tab, non-ASCII: implementation vs model only). Non-ASCII statements raise in pyparsing and are outside the "
         "property's alphabets: generated only in the adversarial stream. non-trivial = a tree of depth>=2 with >=4 statements "
         "rendered in a non-canonical layout, or a dropped brace, distinct by request line.")
-LEVEL_TEXT = ("Theorems (Lean 4, all trees, all layouts in the family): parsing the rendering of a well-formed statement tree "
-              "returns exactly its preorder flattening with 4 blanks per level; in that flattening the nearest preceding line "
-              "with smaller indentation is the tree parent; deleting one closing brace yields an error. The model "
-              "(tab expansion, pyparsing nested_expr/quoted_string tokenizer, recursive descent, unpack) is tied to "
-              "convert_junos_to_ios / CiscoConfParse(syntax='junos') by differential runs on every check.")
+LEVEL_TEXT = ("Theorems (Lean 4, all well-formed statement trees, all layouts whose white space is blank/LF/CR — indentation, "
+              "blank lines, trailing blanks, semicolons present or absent, brace on the same or a later line, one-line and empty "
+              "blocks): converting the rendering returns exactly the preorder flattening with 4 blanks per level "
+              "(brace_roundtrip_partial; tabs in the layout are measured by correspondence only); in that flattening the nearest "
+              "preceding line with smaller indentation is the tree parent (flatten_parent); deleting one closing brace yields "
+              "ParseException (missing_close_errors_partial, for renderings without quote characters). The model (tab expansion, "
+              "pyparsing nested_expr/quoted_string tokenizer, recursive descent, unpack) is tied to convert_junos_to_ios / "
+              "CiscoConfParse(syntax='junos') by differential runs on every check.")
 LEVEL_NOTE = ("Trusted: Lean kernel; axioms propext/Classical.choice/Quot.sound only; the correspondence harness; pyparsing is "
               "modelled, not verified (behaviour re-implemented by hand and measured). Proved about the model, measured against the code.")
 EXHAUSTIVE = {"quick": False, "thorough": False}
@@ -320,7 +323,7 @@ def describe(case):
 def buckets(case, ans):
     out = ["kind:" + case["kind"], "answer:" + (ans.split("|")[0])]
     if "tree" in case:
-        out.append("depth:%d" % tree_depth(case["tree"]))
+        out.append("levels:%d" % tree_depth(case["tree"]))
         out.append("statements:%s" % ("0" if not tree_size(case["tree"]) else "1-3" if tree_size(case["tree"]) < 4 else
                                       "4-15" if tree_size(case["tree"]) < 16 else "16+"))
         out.append("style:" + case["style"])
